@@ -156,6 +156,9 @@ func (g *c5gen) mapVal(t *Ty, n int, pfx string) *Val {
 	if t.Key.K == thrift.I08 && n > 120 {
 		n = 120
 	}
+	if ek := t.Elem.K; n > 40 && (ek == thrift.STRUCT || ek == thrift.MAP || ek == thrift.LIST || ek == thrift.SET) {
+		n = 40 // the largest maps carry scalar payloads (model run time)
+	}
 	v := &Val{T: t}
 	v.Keys = g.mapKeys(t.Key, n, pfx)
 	for range v.Keys {
